@@ -31,16 +31,16 @@ func (c14) Rule() string {
 }
 
 type CorpusEntry struct {
-	File     string `json:"file"`
-	Origin   string `json:"origin"` // pinned-dump | hand-assembled
-	Desc     string `json:"desc"`
-	Out      string `json:"out"`
-	Log      string `json:"log"`
-	Blocks   string `json:"blocks"`
-	Binding  string `json:"binding"`
-	Err      string `json:"err"`
-	Redump   bool   `json:"redump"` // Dump(LoadProg(file)) must equal the file
-	SrcNote  string `json:"src_note,omitempty"`
+	File     string   `json:"file"`
+	Origin   string   `json:"origin"` // pinned-dump | hand-assembled
+	Desc     string   `json:"desc"`
+	Out      string   `json:"out"`
+	Log      string   `json:"log"`
+	Blocks   string   `json:"blocks"`
+	Binding  string   `json:"binding"`
+	Err      string   `json:"err"`
+	Redump   bool     `json:"redump"` // Dump(LoadProg(file)) must equal the file
+	SrcNote  string   `json:"src_note,omitempty"`
 	Features []string `json:"features,omitempty"`
 }
 
